@@ -63,6 +63,18 @@ def step (_ : Unit) (j : Json) : Except String (Unit × Drv.Out) := do
       o := o.diff s!"WebSocket session (SendTimeout {st} ms, PingDuration {ping} ms): {left} goroutine(s) of the relay are left after the session and the server were closed"
       o := o.mon "termination" "ws-goroutine-left" s!"{left} goroutine(s) of the relay outlive the WebSocket session (SendTimeout {st} ms, PingDuration {ping} ms): {(out.getObjValD "sample").compress.take 400}"
     pure ((), o)
+  else if op == "c13wsidle" then
+    let ping := numI (j.getObjValD "ping_ms")
+    o := o.tag s!"ws.idle.ping.{ping}"
+    if out.getObjValD "dial_error" != Json.null then throw "websocket dial failed"
+    if out.getObjValD "ended" != Json.bool true then
+      o := o.diff s!"idle WebSocket session (PingDuration {ping} ms): the handler's context was not cancelled within 4 s of the peer going away"
+      o := o.mon "termination" "ws-idle-not-ended" s!"an idle WebSocket session whose peer went away (ping every {ping} ms waiting for its pong) did not end within 4 s"
+    let left := numI (out.getObjValD "leftover")
+    if left > 0 then
+      o := o.diff s!"idle WebSocket session (PingDuration {ping} ms): {left} goroutine(s) of the relay are left after the peer went away"
+      o := o.mon "termination" "ws-goroutine-left" s!"{left} goroutine(s) of the relay outlive an idle WebSocket session that ended while a ping waited for its pong (PingDuration {ping} ms): {(out.getObjValD "sample").compress.take 400}"
+    pure ((), o)
   else throw s!"unknown op {op}"
 
 def handler : Drv.Handler := { σ := Unit, init := (), step := step }
